@@ -394,7 +394,7 @@ pub fn generate(stream: &str, seed: u64, n: usize, emit: &mut dyn FnMut(String))
 			} else if hostile {
 				(1000, 64)
 			} else {
-				(1_000_000_000, 64)
+				(1_000_000, 64)
 			};
 			let backend = if stream == "de-chunks" || (stream != "de-valid" && stream != "de-canon" && rng.gen_bool(0.4)) {
 				random_backend(&mut rng, bytes.len())
@@ -510,7 +510,7 @@ pub fn generate_c11(seed: u64, n: usize, emit: &mut dyn FnMut(String)) {
 				}
 			}
 		}
-		let max_seq = if hostile { 1000 } else { 1_000_000_000 };
+		let max_seq = if hostile { 1000 } else { 1_000_000 };
 		let mut backends = vec![Backend::Slice];
 		// every constant chunk size 1..len (bounded), plus irregular schedules
 		for c in 1..=bytes.len().min(16) {
